@@ -5,9 +5,9 @@ import mcs, pipe
 
 RULE = ("a mixed batch (two or three MCS-stage reactions, a rule-based and an input-balanced one) is run through the real Balancer with "
         "faults injected at the realistic points -- inside MCSMissingGraphAnalyzer.fit (exception, sleep past the 2 s thread wait, "
-        "mismatching result lists) per (reaction, search condition) job, and inside FindMissingGraphs.find_missing_parts_pairs "
+        "mismatching result lists, an exception inside the per-reactant loop) per (reaction, search condition) job, and inside FindMissingGraphs.find_missing_parts_pairs "
         "(exception, sleep) per fragment-analysis job: thorough = ALL 64 subsets of the 2x3 search jobs hit by an exception + all 9 "
-        "fragment-job patterns + sampled timeout/uncertain plans; quick = 14 exception subsets, 3 timeout plans, 4 fragment plans (incl. two overlapping hangs); plus the batch in descending order of result size with faults on its first reaction.  Each "
+        "fragment-job patterns + sampled timeout/uncertain plans; quick = 14 exception subsets, 3 timeout plans, 4 fragment plans (incl. two overlapping hangs); plus the batch in descending order of result size with faults on its first reaction, and a batch with a repeated reaction whose first occurrence fails; every run in a fresh interpreter.  Each "
         "run is compared with the fault-free run: no row lost; rows whose jobs were not hit are identical; every row is either solved "
         "and balanced (RDKit recount) or returned unchanged with a reason; the observed job outcomes are replayed through "
         "Model/McsSelect.find inside Coq; after time-out plans the returned records are compared again after a 3 s grace period.  "
@@ -16,6 +16,7 @@ ASSUMPTIONS = ["faults are injected by wrapping the two analyzers (n_jobs=1, in-
 TRUSTED = ["thread scheduling / ThreadPool.terminate semantics as exercised"]
 BATCH = ["CCOC(=O)C>>CC(=O)O", "CCBr.O>>CCO", "CC(=O)OCC.CN>>CC(=O)NC", "CCO>>CCO", "CC(=O)Oc1ccccc1>>Oc1ccccc1"]
 MCS_POS = [0, 2]        # rows of BATCH whose search jobs are hit (row 4 is an unaffected MCS-stage row)
+BATCH3 = ["CCOC(=O)C>>CC(=O)O", "CCBr.O>>CCO", "CC(=O)OCC.CN>>CC(=O)NC", "CCOC(=O)C>>CC(=O)O", "CCO>>CCO"]    # rows 0 and 3: the same reaction
 BATCH2 = ["CC(=O)Oc1ccccc1>>Oc1ccccc1", "CCBr.O>>CCO", "CC(=O)OCC.CN>>CC(=O)NC", "CCO>>CCO", "CCOC(=O)C>>CC(=O)O"]   # largest result first
 
 
@@ -81,8 +82,18 @@ def run(ctx):
     plans2 = [{}, {"search": {"0:0": "timeout"}}, {"search": {"0:1": "timeout"}}, {"search": {"0:0": "timeout", "0:1": "timeout"}},
               {"search": {"0:0": "raise"}}, {"search": {"0:0": "uncertain", "0:1": "raise"}}, {"graph": {"0": "timeout", "2": "timeout"}}]
     items2 = [(BATCH2, p, grace(p)) for p in plans2]
-    recs, _ = pipe.cached("c11_%s_%d" % (ctx.tier, ctx.seed), lambda: mcs.run_many(items + items2, procs=8))
-    recs, recs2 = recs[:len(items)], recs[len(items):]
+    # a batch in which one reaction occurs twice: every search job of its FIRST occurrence fails (exception; fault inside the per-reactant
+    # loop) -- the second occurrence was not hit and must come back as in the fault-free run; each run in a fresh interpreter
+    plans3 = [{}, {"search": {"0:0": "raise", "0:1": "raise", "0:2": "raise"}}, {"search": {"0:0": "inner"}}, {"search": {"2:0": "inner", "2:1": "inner"}},
+              {"search": {"0:0": "inner", "0:1": "inner", "0:2": "inner"}}]
+    items3 = [(BATCH3, p, 0) for p in plans3]
+    recs, _ = pipe.cached("c11_%s_%d" % (ctx.tier, ctx.seed), lambda: mcs.run_many(items + items2 + items3, procs=8))
+    recs, recs2, recs3 = recs[:len(items)], recs[len(items):len(items) + len(items2)], recs[len(items) + len(items2):]
+    for rec in recs3[1:]:
+        ctx.nontrivial.add(json.dumps(["repeated-reaction", rec["plan"]], sort_keys=True))
+        check_run(ctx, rec, recs3[0])
+    ctx.count("plans", "batch_with_a_repeated_reaction", len(items3))
+    ctx.count("faults", "inner_faults_actually_raised", sum(r.get("inner_hits", 0) for r in recs3))
     for rec in recs2[1:]:
         ctx.nontrivial.add(json.dumps(["descending", rec["plan"]], sort_keys=True))
         check_run(ctx, rec, recs2[0])
